@@ -136,65 +136,69 @@ CACHED_ATTRS = ['smiles_atoms_order', 'atoms_order', '_chiral_morgan', 'int_adja
 # not observed: _compiled_query (its closures table is a defaultdict that the matcher fills with empty lists while reading it)
 
 
-def observe_reads(m, env):
-    """everything that reads the molecule (and its cache) without changing it"""
-    o = {}
-    o['str'] = safe(lambda: str(m))
+def observe_reads(m, env, order='forward'):
+    """everything that reads the molecule (and its cache) without changing it.  The observations are planned first and
+    then evaluated forward, backward or in a shuffled order: a cached value must not depend on which attribute was read
+    first (str() stores smiles_atoms_order and vice versa, sssr feeds the ring marks, ...)"""
+    plan = []
+
+    def add(name, fn):
+        plan.append((name, fn))
+    add('str', lambda: str(m))
     for f in FORMATS:
-        o['fmt:' + f] = safe(lambda: format(m, f))
+        add('fmt:' + f, lambda f=f: format(m, f))
     for a in CACHED_ATTRS:
-        o[a] = safe(lambda: getattr(m, a))
-    o['atoms'] = safe(lambda: atoms_dump(m))
-    o['bonds'] = safe(lambda: bonds_dump(m))
-    o['meta'] = safe(lambda: m.meta)
+        add(a, lambda a=a: getattr(m, a))
+    add('atoms', lambda: atoms_dump(m))
+    add('bonds', lambda: bonds_dump(m))
+    add('meta', lambda: m.meta)
     n = len(m._atoms)
+    big = 6 if n <= 30 else 4
     # fingerprints
-    o['linear_hash_set'] = safe(lambda: m.linear_hash_set())
-    o['linear_hash_set(1,6,0)'] = safe(lambda: m.linear_hash_set(1, 6 if n <= 30 else 4, 0))
-    o['linear_bit_set'] = safe(lambda: m.linear_bit_set())
-    o['linear_bit_set(2,5,4096,3,0)'] = safe(lambda: m.linear_bit_set(2, 5 if n <= 30 else 4, 4096, 3, 0))
-    o['linear_fingerprint'] = safe(lambda: m.linear_fingerprint())
-    o['morgan_hash_set'] = safe(lambda: m.morgan_hash_set())
-    o['morgan_bit_set'] = safe(lambda: m.morgan_bit_set())
-    o['morgan_fingerprint'] = safe(lambda: m.morgan_fingerprint())
-    o['_morgan_hash_dict'] = safe(lambda: m._morgan_hash_dict(1, 3))
-    o['_chains'] = safe(lambda: m._chains(1, 4))
-    o['_fragments'] = safe(lambda: m._fragments(1, 4))
-    o['linear_hash_smiles'] = safe(lambda: m.linear_hash_smiles(1, 3))
-    o['linear_smiles_hash'] = safe(lambda: m.linear_smiles_hash(1, 3))
-    try:
-        mhs = m.morgan_hash_smiles(1, 2)
-        o['morgan_hash_smiles'] = ser(mhs)
-        # the same with the value lists normalised: what remains must be seed free
-        o['morgan_hash_smiles(sorted lists)'] = ser({k: sorted(v) for k, v in mhs.items()})
-        msh = m.morgan_smiles_hash(1, 2)
-        o['morgan_smiles_hash'] = ser(msh)
-        o['morgan_smiles_hash(as set of items)'] = ser({(k, tuple(sorted(v))) for k, v in msh.items()})
-    except Exception as e:
-        o['morgan_hash_smiles'] = f'EXC:{type(e).__name__}'
+    add('linear_hash_set', lambda: m.linear_hash_set())
+    add('linear_hash_set(1,6,0)', lambda: m.linear_hash_set(1, big, 0))
+    add('linear_bit_set', lambda: m.linear_bit_set())
+    add('linear_bit_set(2,5,4096,3,0)', lambda: m.linear_bit_set(2, big - 1, 4096, 3, 0))
+    add('linear_fingerprint', lambda: m.linear_fingerprint())
+    add('morgan_hash_set', lambda: m.morgan_hash_set())
+    add('morgan_bit_set', lambda: m.morgan_bit_set())
+    add('morgan_fingerprint', lambda: m.morgan_fingerprint())
+    add('_morgan_hash_dict', lambda: m._morgan_hash_dict(1, 3))
+    add('_chains', lambda: m._chains(1, 4))
+    add('_fragments', lambda: m._fragments(1, 4))
+    add('linear_hash_smiles', lambda: m.linear_hash_smiles(1, 3))
+    add('linear_smiles_hash', lambda: m.linear_smiles_hash(1, 3))
+    add('morgan_hash_smiles', lambda: m.morgan_hash_smiles(1, 2))
+    # the same with the value lists normalised: what remains must be seed free
+    add('morgan_hash_smiles(sorted lists)', lambda: {k: sorted(v) for k, v in m.morgan_hash_smiles(1, 2).items()})
+    add('morgan_smiles_hash', lambda: m.morgan_smiles_hash(1, 2))
     # substructure match LISTS, order included
     for i, (sma, q) in enumerate(env['queries']):
         if q is None:
             continue
-        o[f'match:{sma}'] = safe(lambda: list(itertools.islice(q.get_mapping(m), 120)))
+        add(f'match:{sma}', lambda q=q: list(itertools.islice(q.get_mapping(m), 120)))
         if i % 3 == 0:
-            o[f'match-all:{sma}'] = safe(lambda: list(itertools.islice(q.get_mapping(m, automorphism_filter=False), 120)))
+            add(f'match-all:{sma}', lambda q=q: list(itertools.islice(q.get_mapping(m, automorphism_filter=False), 120)))
         if env['cython'] and i % 2 == 0:
-            o[f'match-py:{sma}'] = safe(lambda: list(itertools.islice(q.get_mapping(m, _cython=False), 120)))
+            add(f'match-py:{sma}', lambda q=q: list(itertools.islice(q.get_mapping(m, _cython=False), 120)))
         if i % 5 == 0 and n:
             scope = list(m._atoms)[: max(1, n // 2)]
-            o[f'match-scope:{sma}'] = safe(lambda: list(itertools.islice(q.get_mapping(m, searching_scope=scope), 60)))
+            add(f'match-scope:{sma}', lambda q=q, scope=scope: list(itertools.islice(q.get_mapping(m, searching_scope=scope), 60)))
     for smi, fr in env['fragments']:
-        o[f'molmatch:{smi}'] = safe(lambda: list(itertools.islice(fr.get_mapping(m), 60)))
-    o['automorphisms'] = safe(lambda: list(itertools.islice(m.get_automorphism_mapping(), 30)))
-    o['is_automorphic'] = safe(lambda: m.is_automorphic())
-    o['eq-self'] = safe(lambda: (m == m, m.is_equal(m)))
+        add(f'molmatch:{smi}', lambda fr=fr: list(itertools.islice(fr.get_mapping(m), 60)))
+    add('automorphisms', lambda: list(itertools.islice(m.get_automorphism_mapping(), 30)))
+    add('is_automorphic', lambda: m.is_automorphic())
+    add('eq-self', lambda: (m == m, m.is_equal(m)))
     # pack bytes (the .pyx codecs run through the transpiler)
-    o['pack'] = safe(lambda: m.pack())
-    o['pack(compressed=False)'] = safe(lambda: m.pack(compressed=False))
-    o['pack_len'] = safe(lambda: env['MoleculeContainer'].pack_len(m.pack(compressed=False), compressed=False))
-    o['unpack(pack)'] = safe(lambda: env['MoleculeContainer'].unpack(m.pack()))
-    return o
+    add('pack', lambda: m.pack())
+    add('pack(compressed=False)', lambda: m.pack(compressed=False))
+    add('pack_len', lambda: env['MoleculeContainer'].pack_len(m.pack(compressed=False), compressed=False))
+    add('unpack(pack)', lambda: env['MoleculeContainer'].unpack(m.pack()))
+    if order == 'backward':
+        plan.reverse()
+    elif order != 'forward':
+        random.Random(order).shuffle(plan)
+    return {name: safe(fn) for name, fn in plan}
 
 
 def observe_ops(m, env):
@@ -217,22 +221,54 @@ def observe_ops(m, env):
     o['augmented_substructure'] = safe(lambda: m.augmented_substructure(ks[:1], deep=2))
     o['union'] = safe(lambda: m | m)
 
-    def remapped():
-        c = m.copy()
-        c.remap({k: k + 100 for k in ks})
-        return (str(c), c.smiles_atoms_order, c.sssr)
-    o['remap+100'] = safe(remapped)
+    def snapshot(x):
+        return (str(x), x.smiles_atoms_order, x.sssr, x.rings_count, x.atoms_order, x.bonds_count, x.connected_components,
+                x.linear_hash_set(1, 3), [a.ring_sizes for _, a in x.atoms()])
 
-    def edited():
-        c = m.copy()
-        str(c), c.sssr, c.atoms_order           # fill the cache, then edit
-        k = c.add_atom('C')
-        c.add_bond(k, ks[0], 1)
-        s1 = (str(c), c.sssr, c.rings_count, c.atoms_order, c.bonds_count, c.connected_components)
-        c.delete_atom(k)
-        return s1, (str(c), c.sssr, c.rings_count, c.atoms_order, c.bonds_count, c.connected_components)
+    def edit(name, action):
+        """fill the cache, edit, and compare what the edited object answers with what a fresh copy of it answers"""
+        def run():
+            c = m.copy()
+            snapshot(c)
+            action(c)
+            mine = snapshot(c)
+            fresh = snapshot(c.copy())
+            if ser(mine) != ser(fresh):
+                stale.append({'observable': 'edit:' + name, 'first': ser(fresh)[:600], 'other': ser(mine)[:600]})
+            return mine
+        o['edit:' + name] = safe(run)
+    stale = []
     if ks:
-        o['edit-after-cache'] = safe(edited)
+        edit('remap+100', lambda c: c.remap({k: k + 100 for k in ks}))
+        edit('add_atom+add_bond', lambda c: c.add_bond(c.add_atom('C'), ks[0], 1))
+        edit('add_atom,delete_atom', lambda c: c.delete_atom(c.add_atom('O')))
+        edit('delete_atom(last)', lambda c: c.delete_atom(ks[-1]))
+        if n > 1 and m._bonds[ks[-1]]:
+            edit('delete_bond', lambda c: c.delete_bond(ks[-1], next(iter(c._bonds[ks[-1]]))))
+        edit('union in place', lambda c: c.union(env['fragments'][0][1], remap=True, copy=False))
+    # which attribute is read FIRST on a fresh object must not matter (cross-stored cache entries)
+    def first_read():
+        base = ser(snapshot(m.copy()))
+        bad = []
+        for a in ('smiles_atoms_order', 'atoms_order', '_chiral_morgan', 'sssr', 'atoms_rings_sizes', 'rings_count', 'connected_components',
+                  'skin_graph', 'brutto', '__hash__', '__format__h'):
+            c = m.copy()
+            try:
+                if a == '__hash__':
+                    hash(c)
+                elif a == '__format__h':
+                    c.__format__('', _return_order=True)
+                else:
+                    getattr(c, a)
+            except Exception:
+                pass
+            mine = ser(snapshot(c))
+            if mine != base:
+                bad.append(a)
+                stale.append({'observable': 'first-read:' + a, 'first': base[:600], 'other': mine[:600]})
+        return bad
+    o['first-read'] = safe(first_read)
+    o['__stale__'] = json.dumps(stale)
     return o
 
 
@@ -349,16 +385,20 @@ def worker(spec_path, out_path):
             continue
         first = observe_reads(m, env)
         ops = observe_ops(m, env)                           # operations on copies: m itself must stay untouched
-        second = observe_reads(m, env)                      # every cached value is now read from the cache
+        for d in json.loads(ops.pop('__stale__')):
+            intra.append(dict(d, input=tag, variant='fresh copy after the edit' if d['observable'].startswith('edit') else 'str() read first on a fresh copy'))
+        second = observe_reads(m, env, 'backward')          # every cached value is now read from the cache
         compare_variants(tag, first, second, 'second call (cached, after operations on copies)', intra)
-        if idx % 3 == 1:
+        if idx % 3 == 1 or tag.startswith('hand'):
             m.flush_cache()
-            compare_variants(tag, first, observe_reads(m, env), 'after flush_cache', intra)
+            compare_variants(tag, first, observe_reads(m, env, 'backward'), 'after flush_cache (read in reverse order)', intra)
         c = m.copy()
         c.meta.update(m.meta)
-        compare_variants(tag, first, observe_reads(c, env), 'copy()', intra)
+        compare_variants(tag, first, observe_reads(c, env, tag), 'copy() (read in shuffled order)', intra)
         if idx % 3 == 0:
-            compare_variants(tag, ops, observe_ops(c, env), 'ops on copy()', intra)
+            cops = observe_ops(c, env)
+            cops.pop('__stale__')
+            compare_variants(tag, ops, cops, 'ops on copy()', intra)
         if idx % 6 == 2:
             compare_variants(tag, first, observe_reads(parse(), env), 're-parsed object', intra)
         first.update(ops)
@@ -464,12 +504,12 @@ def build_spec(ck):
     quick = ck.tier == 'quick'
     rng = random.Random(f'{ck.seed}:c19')
     mols = [('hand:' + s, s) for s in HAND]
-    pool = corpus.sample(corpus.lipo(), 40 if quick else 1000, ck.seed, 'c19')
+    pool = corpus.sample(corpus.lipo(), 40 if quick else 600, ck.seed, 'c19')
     for s in pool:
         mols.append(('corpus:' + s, s))
     # element-symbol rich generated inputs (str-keyed tables: symbols, brutto, organic_set)
     syms = ['B', 'C', 'N', 'O', 'F', 'Si', 'P', 'S', 'Cl', 'Se', 'Br', 'I', 'Li', 'Na', 'K', 'Mg', 'Al', 'Zn', 'Cu', 'Sn', 'As', 'Te']
-    for i in range(10 if quick else 120):
+    for i in range(10 if quick else 100):
         k = rng.randint(2, 6)
         parts = []
         for _ in range(k):
@@ -536,19 +576,19 @@ def family(name):
     return name.split(':')[0] if name.startswith(('match', 'molmatch', 'op:', 'fmt:')) else name
 
 
-def differential(ck, spec, results):
+def differential(ck, spec, results, label=''):
     smi_of = dict(spec['molecules'])
     smi_of.update(dict(spec['reactions']))
     good = [(i, seed, res) for i, seed, res, log in results if res is not None]
     for i, seed, res, log in results:
-        ck.oblige(f'worker process {i} (PYTHONHASHSEED={seed}) ran to completion', res is not None, 'machinery', log)
+        ck.oblige(f'{label}worker process {i} (PYTHONHASHSEED={seed}) ran to completion', res is not None, 'machinery', log)
         if res is None:
             ck.unchecked(f'worker process {i} under PYTHONHASHSEED={seed} failed', log)
     if len(good) < 2:
         return False
     # the seeds really differ for str hashing (otherwise the experiment tests nothing)
     probes = {res['str_hash_probe'] for _, _, res in good}
-    ck.oblige('the worker processes really run under different str-hash seeds (hash("chython") differs)', len(probes) > 1, 'machinery', str(probes))
+    ck.oblige(label + 'the worker processes really run under different str-hash seeds (hash("chython") differs)', len(probes) > 1, 'machinery', str(probes))
     if len(probes) <= 1:
         ck.unchecked('hash seeds did not take effect in the worker processes', str(probes))
     ck.extra['worker_notes'] = sorted({n for _, _, res in good for n in res['notes']})
@@ -590,16 +630,17 @@ def differential(ck, spec, results):
             n_intra += 1
             smi = smi_of.get(d['input'], d['input'])
             vkey = {'second call (cached, after operations on copies)': 'cached', 'second call (cached)': 'cached', 'after flush_cache': 'flushed',
-                    'copy()': 'copy', 're-parsed object': 'reparsed', 'ops on copy()': 'copy-ops'}.get(d['variant'], d['variant'])
+                    'after flush_cache (read in reverse order)': 'flushed', 'copy() (read in shuffled order)': 'copy',
+                    'copy()': 'copy', 're-parsed object': 'reparsed', 'ops on copy()': 'copy-ops', 'fresh copy after the edit': 'stale', 'str() read first on a fresh copy': 'first-read'}.get(d['variant'], d['variant'])
             ck.counterexample(f'{vkey}:{family(d["observable"])}', f'{d["observable"]} of {smi!r}: first call differs from {d["variant"]}',
                               {'input': smi, 'observable': d['observable'], 'variant': d['variant'], 'PYTHONHASHSEED': seed},
                               d['other'], d['first'], 'first (uncached) evaluation of the same object',
                               replay_py=obs_code('molecule', smi, d['observable']))
-    ck.extra['differential'] = {'processes': len(good), 'seeds': [s for _, s, _ in good], 'inputs': len(base['obs']),
+    ck.extra['differential' if not label else 'differential_directed'] = {'processes': len(good), 'seeds': [s for _, s, _ in good], 'inputs': len(base['obs']),
                                 'observables_per_process': sum(len(o) for o in base['obs'].values()),
                                 'pairwise_comparisons': n_cmp, 'differences': n_diff, 'intra_process_differences': n_intra,
                                 'observable_families': families}
-    ck.oblige(f'differential: {sum(len(o) for o in base["obs"].values())} observables x {len(good)} processes identical byte for byte '
+    ck.oblige(f'{label}differential: {sum(len(o) for o in base["obs"].values())} observables x {len(good)} processes identical byte for byte '
               f'(known findings excepted)', True, 'search', f'{n_diff} differences, {n_intra} intra-process differences')
     return True
 
@@ -753,6 +794,12 @@ def correspondence(ck, spec, results):
         # directed search: the disagreeing inputs are re-observed under the seeds at hand -- a seed/process difference there is
         # a concrete counterexample (reported by differential()); otherwise the tie itself is broken
         bad_tags = sorted({meta[i][0] for i in failing1})
+        if bad_tags:
+            sub = dict(spec, molecules=[(tg, sm) for tg, sm in spec['molecules'] if tg in bad_tags][:40], reactions=[], sdf=[],
+                       model_inputs=[])
+            more = [rng.randrange(3, 2 ** 32) for _ in range(3)]
+            ck.extra['directed_search'] = {'inputs': [tg for tg, _ in sub['molecules']], 'seeds': [0] + more}
+            differential(ck, sub, run_workers(ck, sub, [0] + more), label='directed search on the inputs where model and code disagree: ')
         ck.unchecked('correspondence seed-free models vs chython (morgan / fingerprints / isomorphism buffers / smiles groups)', log1[-1500:],
                      [repr(meta[i]) + ' ' + smi_of.get(meta[i][0], '') for i in failing1[:20]] or bad_tags)
     if not good2:
@@ -779,10 +826,14 @@ def audit_report(ck):
     allowed = set()
     for f, q, t in re.findall(r'\(\((f_\w+), "((?:[^"]|"")*)", "((?:[^"]|"")*)"\)', txt):
         allowed.add((consts.get(f, f), q.replace('""', '"'), t.replace('""', '"')))
+    body = common.strip_comments(txt[txt.index('Definition allow_list'):txt.index('Definition known_lemmas')])
+    body = re.sub(r'"(?:[^"]|"")*"', '""', body)          # reasons are counted outside string literals
+    reasons = {r: len(re.findall(r'\b' + r + r'\b', body)) for r in ('OrderFree', 'KeyedTieBreak', 'IntHistory', 'HashOfInts', 'HashOfStr', 'StrSet')}
     cur = set(sites)
     new = sorted(cur - allowed)
     gone = sorted(allowed - cur)
-    ck.extra['audit'] = {'sites': len(sites), 'files': gen_setaudit.FILES, 'new_sites': new, 'vanished_sites': gone,
+    ck.extra['audit'] = {'sites': len(sites), 'files': gen_setaudit.FILES, 'new_sites': new, 'vanished_sites': gone, 'reasons': reasons,
+                         'sites_whose_reason_is_a_theorem': reasons['OrderFree'] + reasons['HashOfInts'],
                          'by_kind': {k: sum(1 for s in sites if s[2].startswith(k + ' ')) for k in ('for', 'call', 'pop', 'unpack', 'star', 'hash')}}
     ck.oblige('audit (Python view): every set-order / hash() site of the current source is allow-listed and no entry is stale',
               not new and not gone, 'translator', f'new: {new}\nvanished: {gone}')
@@ -826,7 +877,7 @@ def run(ck):
     # quick: four seeds, one process each (a process-dependent result, e.g. address-based hashing, also shows between them);
     # thorough: more seeds and a second process under seed 0 to tell `process` from `seed`
     seeds = [0, 1, 2, rng.randrange(3, 2 ** 32)] if ck.tier == 'quick' else \
-        [0, 1, 2] + [rng.randrange(3, 2 ** 32) for _ in range(4)] + [0]
+        [0, 1, 2] + [rng.randrange(3, 2 ** 32) for _ in range(3)] + [0]
     results = run_workers(ck, spec, seeds)
     differential(ck, spec, results)
     tied = correspondence(ck, spec, results)
